@@ -28,6 +28,8 @@ def configs(t):
         cfg(2, 5, 1, rules=True, F=1, faults=['crash'], cost=5),
         cfg(2, 5, 1, rules=True, F=1, faults=['crash'], fence=True, cost=5),
         cfg(3, 4, 0, late=[2], warm=6, cost=4),
+        # a late joiner is held CHECKED while the distribution lasts (slow start) and is lost in that state
+        cfg(3, 5, 0, late=[2], rules=True, slow_start=True, F=1, faults=['crash'], crashable=[2], warm=4, cost=7),
     ]
     if t == 'quick':
         return q
